@@ -1,6 +1,7 @@
 (* ExecMerge.v — model of the execute plugin's observation validation and merges:
    execute/plugin.go:ValidateObservation, execute/plugin_functions.go:validateObserverReadingEligibility,
-   validateObserverDataEligibility, validateObservedSequenceNumbers, validateMessageKeys (repair of F13a), validateObservedChains (repair of F13d), mergeCommitObservations,
+   validateObserverDataEligibility, validateObservedSequenceNumbers, validateMessageKeys (repair of F13a), validateObservedChains (repair of F13d),
+   validateCommitReportKeys (repair of F75), mergeCommitObservations (called with the destination's f for every chain key: repair of F75),
    mergeMessageObservations, mergeTokenObservations, mergeNonceObservations, mergeCostlyMessages (with the
    repair of F13c), getConsensusObservation.
 
@@ -13,6 +14,7 @@ Require Import Verif.Model.Base Verif.Model.Consensus.
 (* ---------- items ---------- *)
 Record commit := mkCommit {
   c_id : N;            (* interned "%v" of the whole exectypes.CommitData *)
+  c_src : N;           (* SourceChain *)
   c_root : N;          (* interned MerkleRoot.String() *)
   c_lo : N; c_hi : N;  (* SequenceNumberRange *)
   c_exec : list N      (* ExecutedMessages *)
@@ -26,7 +28,7 @@ Record tok := mkTok { t_ready : bool; t_data : N (* interned "%v" of Data *) }.
 Definition nonce_t := (N * N * N)%type.   (* source chain, interned sender string, nonce *)
 
 Definition commit_eqb (a b : commit) : bool :=
-  N.eqb (c_id a) (c_id b) && N.eqb (c_root a) (c_root b) && N.eqb (c_lo a) (c_lo b) &&
+  N.eqb (c_id a) (c_id b) && N.eqb (c_src a) (c_src b) && N.eqb (c_root a) (c_root b) && N.eqb (c_lo a) (c_lo b) &&
   N.eqb (c_hi a) (c_hi b) && list_eqb N.eqb (c_exec a) (c_exec b).
 Definition msg_eqb (a b : msg) : bool :=
   N.eqb (m_id a) (m_id b) && N.eqb (m_seq a) (m_seq b) && N.eqb (m_mid a) (m_mid b).
@@ -89,17 +91,25 @@ Definition validate_data (sup : list N) (dest : N) (o : obs) : bool :=
 Definition validate_chains (fchain : list (N * Z)) (o : obs) : bool :=
   forallb (fun k => memN k (keys fchain)) (keys (o_commits o) ++ keys (o_msgs o) ++ keys (o_tokens o)).
 
+(* validateCommitReportKeys (repair of F75): a commit report is filed under its own source chain *)
+Definition validate_commit_keys (commits : list (N * list commit)) : bool :=
+  forallb (fun kv => forallb (fun d => N.eqb (c_src d) (fst kv)) (snd kv)) commits.
+
 Definition validate (sup : list N) (dest : N) (fchain : list (N * Z)) (o : obs) : bool :=
+  validate_eligibility sup (o_msgs o) && validate_data sup dest o && validate_seqnums (o_commits o) &&
+  validate_msg_keys (o_msgs o) && validate_chains fchain o && validate_commit_keys (o_commits o).
+(* ValidateObservation without the repair of F75 (validateCommitReportKeys) *)
+Definition validate_nokeys (sup : list N) (dest : N) (fchain : list (N * Z)) (o : obs) : bool :=
   validate_eligibility sup (o_msgs o) && validate_data sup dest o && validate_seqnums (o_commits o) &&
   validate_msg_keys (o_msgs o) && validate_chains fchain o.
 (* ValidateObservation without the repair of F13a (validateMessageKeys) *)
 Definition validate_unfixed (sup : list N) (dest : N) (fchain : list (N * Z)) (o : obs) : bool :=
   validate_eligibility sup (o_msgs o) && validate_data sup dest o && validate_seqnums (o_commits o) &&
-  validate_chains fchain o.
+  validate_chains fchain o && validate_commit_keys (o_commits o).
 (* ValidateObservation without the repair of F13d (validateObservedChains) *)
 Definition validate_nochains (sup : list N) (dest : N) (o : obs) : bool :=
   validate_eligibility sup (o_msgs o) && validate_data sup dest o && validate_seqnums (o_commits o) &&
-  validate_msg_keys (o_msgs o).
+  validate_msg_keys (o_msgs o) && validate_commit_keys (o_commits o).
 
 (* ---------- merges ---------- *)
 (* "no validator for chain": some observation has a key that fChain lacks *)
@@ -119,7 +129,19 @@ Definition per_chain {T} (eqb : T -> T -> bool) (items : N -> list T) (fchain : 
                       | v => [(fst kf, v)]
                       end) fchain.
 
-Definition merge_commits (fchain : list (N * Z)) (aos : list ao) : res (list (N * list commit)) :=
+(* Go: fChain[dest], zero when absent *)
+Definition f_dest (dest : N) (fchain : list (N * Z)) : Z :=
+  match alookup dest fchain with Some f => f | None => 0%Z end.
+
+(* commit reports are destination data: getConsensusObservation hands mergeCommitObservations a map that gives every
+   chain key the destination's f (repair of F75); one validator per fChain key as before *)
+Definition dest_fchain (dest : N) (fchain : list (N * Z)) : list (N * Z) :=
+  map (fun kf => (fst kf, f_dest dest fchain)) fchain.
+Definition merge_commits (dest : N) (fchain : list (N * Z)) (aos : list ao) : res (list (N * list commit)) :=
+  if unknown_key fchain o_commits aos then Err
+  else Ok (per_chain commit_eqb (fun k => commit_items k aos) (dest_fchain dest fchain)).
+(* before the repair: the f of the chain key the report is filed under *)
+Definition merge_commits_unfixed (fchain : list (N * Z)) (aos : list ao) : res (list (N * list commit)) :=
   if unknown_key fchain o_commits aos then Err
   else Ok (per_chain commit_eqb (fun k => commit_items k aos) fchain).
 
@@ -178,12 +200,16 @@ Record merged := mkMerged {
   g_costly : list N;
   g_nonces : list nonce_t
 }.
-Definition f_dest (dest : N) (fchain : list (N * Z)) : Z :=
-  match alookup dest fchain with Some f => f | None => 0%Z end.   (* Go: fChain[dest], zero when absent *)
-
 Definition get_consensus (bigF : Z) (dest : N) (fchain : list (N * Z)) (aos : list ao) : res merged :=
   if Z.ltb (Z.of_nat (length aos)) bigF then Err
-  else rbind (merge_commits fchain aos) (fun cs =>
+  else rbind (merge_commits dest fchain aos) (fun cs =>
+       rbind (merge_msgs fchain aos) (fun ms =>
+       rbind (merge_tokens fchain aos) (fun ts =>
+       Ok (mkMerged cs ms ts (merge_costly (f_dest dest fchain) aos) (merge_nonces (f_dest dest fchain) aos))))).
+(* getConsensusObservation before the repair of F75 *)
+Definition get_consensus_unfixed (bigF : Z) (dest : N) (fchain : list (N * Z)) (aos : list ao) : res merged :=
+  if Z.ltb (Z.of_nat (length aos)) bigF then Err
+  else rbind (merge_commits_unfixed fchain aos) (fun cs =>
        rbind (merge_msgs fchain aos) (fun ms =>
        rbind (merge_tokens fchain aos) (fun ts =>
        Ok (mkMerged cs ms ts (merge_costly (f_dest dest fchain) aos) (merge_nonces (f_dest dest fchain) aos))))).
